@@ -19,7 +19,8 @@ rule was labelled before the rule was recorded, so such a rule cannot be the sto
 def cleanKey (c : LCtx) (r : RuleOut) : Option RKey := do
   let start ← c.label? r.parent
   let _ ← r.children.mapM c.label?
-  let labels ← (r.children.filter (fun k => !c.emptyOf k)).mapM c.label?
+  -- same cleaning as `_clean_labels`: only possibly-empty rules lose their empty children
+  let labels ← (r.children.filter (fun k => !(r.flags.possiblyEmpty && c.emptyOf k))).mapM c.label?
   pure (start, sortNat labels)
 
 /-- all (strategy, rule) candidates in replay order: for every label of the key, for every pack strategy -/
